@@ -171,6 +171,7 @@ func (c *Channel) Get(ctx context.Context) (value interface{}, err error) {
 			return
 		}
 
+		verifHook("channel.get.miss")
 		// we have released the mutex, wait a bit before polling again
 
 		if ticker == nil { // do we need to init the ticker
